@@ -1,7 +1,8 @@
 /-
 Line-protocol driver for the C05 model (components).  Requests:
 
-  bind D<n> {<name> <type name | _> (_ | = <value>)}×n (R_ | R:<rest name>) <kwargs: map value> (- | <body value>)
+  bind D<n> {<name> <type name | _> (_ | = <value>)}×n (R_ | R:<rest name>) <kwargs> (- | <body value>)
+        kwargs = <map value> | A<n> {kv <name> <value> | sp <map value>}×n   (the call's attributes, left to right)
         → "ok <map value: the built context, keys sorted>" | "err unknown|missing|mismatch" | "bad-…"
   prio <np> p:<prefix>×np <nd> {<component> <template>}×nd
         → "ok <component>=<template>@<priority> …" (sorted by component) | "err duplicate"
@@ -41,6 +42,37 @@ partial def parseParams : Nat → List String → Option (List Param × List Str
 def showBindErr : BindErr → String
   | .unknown => "unknown" | .missing => "missing" | .mismatch => "mismatch"
 
+partial def parseAttrs : Nat → List String → Option (List Attr × List String)
+  | 0, ts => some ([], ts)
+  | n+1, "kv" :: name :: rest => do
+    let (v, r) ← Wire.parseValue rest
+    let (as, r') ← parseAttrs n r
+    pure (.kv name v :: as, r')
+  | n+1, "sp" :: rest => do
+    let (v, r) ← Wire.parseValue rest
+    match v with
+    | .map es =>
+      let (as, r') ← parseAttrs n r
+      pure (.spread es :: as, r')
+    | _ => none
+  | _, _ => none
+
+/-- the kwargs part of a request: a map value, or `A<n>` followed by n attributes
+(`kv <name> <value>` | `sp <map value>`) which `kwargsOf` turns into the map -/
+def parseKwargs (ts : List String) : Option (List (Key × Value) × List String) :=
+  match ts with
+  | t :: rest =>
+    match (Wire.afterPrefix "A" t).bind (·.toNat?) with
+    | some n =>
+      if t.startsWith "A" && rest.head? ∈ [some "kv", some "sp"] || n == 0 && t == "A0" then
+        (parseAttrs n rest).map (fun (as, r) => (kwargsOf as, r))
+      else none
+    | none =>
+      match Wire.parseValue ts with
+      | some (.map kwargs, r) => some (kwargs, r)
+      | _ => none
+  | [] => none
+
 def handleBind (ts : List String) : String :=
   match ts with
   | dh :: rest =>
@@ -52,8 +84,8 @@ def handleBind (ts : List String) : String :=
           if rt == "R_" then some none else (Wire.afterPrefix "R:" rt).map some
         match restName with
         | some rn =>
-          match Wire.parseValue r1 with
-          | some (.map kwargs, r2) =>
+          match parseKwargs r1 with
+          | some (kwargs, r2) =>
             let body : Option (Option Value) :=
               match r2 with
               | ["-"] => some none
